@@ -137,25 +137,42 @@ pub fn exec(out: &mut Out, line: &str) -> (String, bool) {
         }
     };
     let shared: Option<Arc<Spreadsheet>> = if mode.ends_with("same") { Some(Arc::new(mk(&progs[0]))) } else { None };
+    // saver i's workbook as a copy of `base`, edited to its own strings
+    let derive = |base: &Spreadsheet, i: usize| -> Spreadsheet {
+        let mut c = base.clone();
+        if mode == "lazymixed" && i == 0 {
+            // saver 0 works on a copy in which EVERY sheet is deserialized (its save starts from an empty
+            // table), the others on copies that still hold the raw sheet (their saves need the loaded table)
+            c.read_sheet_collection();
+        }
+        // overwrite / extend / clear to reach this saver's own strings
+        for r in 1..=4u32 {
+            c.get_sheet_mut(&0).unwrap().remove_cell((1, r));
+        }
+        for (k, s) in progs[i].iter().enumerate() {
+            c.get_sheet_mut(&0).unwrap().get_cell_mut((1, k as u32 + 1)).set_value_string(s.clone());
+        }
+        c
+    };
     let base = mk(&progs[0]);
     let books: Vec<Arc<Spreadsheet>> = (0..n)
         .map(|i| match &shared {
             Some(s) => s.clone(),
-            None => {
-                let mut c = base.clone();
-                // overwrite / extend / clear to reach this saver's own strings
-                for r in 1..=4u32 {
-                    c.get_sheet_mut(&0).unwrap().remove_cell((1, r));
-                }
-                for (k, s) in progs[i].iter().enumerate() {
-                    c.get_sheet_mut(&0).unwrap().get_cell_mut((1, k as u32 + 1)).set_value_string(s.clone());
-                }
-                Arc::new(c)
-            }
+            None => Arc::new(derive(&base, i)),
         })
         .collect();
-    // solo saves (the reference)
-    let solo: Vec<String> = books.iter().map(|b| save_bytes(b).and_then(|x| view_saved(&x)).map(|v| render(&v)).unwrap_or("solo-failed".into())).collect();
+    // solo saves (the reference).  For clones the reference is taken from a workbook built the same way from its
+    // OWN freshly read base, saved alone: it shares nothing with the workbooks the savers work on (nor with the
+    // other references), so a save that damages state shared between clones cannot spoil it
+    let solo: Vec<String> = (0..n)
+        .map(|i| {
+            let b: Arc<Spreadsheet> = match &shared {
+                Some(s) => s.clone(),
+                None => Arc::new(derive(&mk(&progs[0]), i)),
+            };
+            save_bytes(&b).and_then(|x| view_saved(&x)).map(|v| render(&v)).unwrap_or("solo-failed".into())
+        })
+        .collect();
 
     *SCHED.lock().unwrap() = Some(Sched { schedule, pos: 0, baton: None, trace: vec![], deadlock: false });
     *umya_spreadsheet::verif_hooks::YIELD.write().unwrap() = Some(yield_cb);
@@ -190,7 +207,7 @@ pub fn exec(out: &mut Out, line: &str) -> (String, bool) {
     for i in 0..n {
         let tags: Vec<&str> = sched.trace.iter().filter(|t| t.0 == i).map(|t| t.1).collect();
         let mut want = vec!["enter"];
-        for _ in 0..progs[i].len() {
+        for _ in 0..progs[i].len() + if mode == "lazymixed" && i == 0 { 2 } else { 0 } {
             want.push("register");
         }
         if !progs[i].is_empty() || lazy {
@@ -334,9 +351,16 @@ pub fn gen(tier: Tier, seed: u64) -> Vec<String> {
         ("lazyclone", vec!["a,r", "b,a"]),
         ("lazyclone", vec!["a", "-"]),
         ("lazyclone", vec!["a,b,c", "c,d,a"]),
+        // a lazily read workbook and its clones: saver 0's copy is fully deserialized, the others keep the raw sheet
+        ("lazymixed", vec!["a,b", "a,b"]),
+        ("lazymixed", vec!["a", "c,d"]),
+        ("lazymixed", vec!["x,q", "r,a"]),
     ];
     for (mode, ps) in &two {
-        let lens: Vec<usize> = ps.iter().map(|p| steps(p, mode.starts_with("lazy"))).collect();
+        let mut lens: Vec<usize> = ps.iter().map(|p| steps(p, mode.starts_with("lazy"))).collect();
+        if *mode == "lazymixed" {
+            lens[0] += 2; // the two cells of the second sheet, deserialized in saver 0's copy
+        }
         let all = interleavings(&lens);
         // quick: every interleaving of the 2-string configurations, a sample of the 3-string ones
         let take_all = tier == Tier::Thorough || lens.iter().sum::<usize>() <= 10;
